@@ -44,3 +44,19 @@ Definition check10 (c : case10) : bool * bool * bool :=
   end.
 
 Definition run10 (cs : list case10) := failing3 (map check10 cs).
+
+(* --- the enumeration of axis combinations, compared directly -------------------------- *)
+(* input: the requested axes; observed: what metrics.iterate_axis_combinations yielded, each
+   yield a tuple of frozensets (blocks compared as sets, their order and the order of the
+   yields compared exactly) *)
+Fixpoint forall2b {X Y} (f : X -> Y -> bool) (a : list X) (b : list Y) : bool :=
+  match a, b with
+  | [], [] => true
+  | x :: a', y :: b' => f x y && forall2b f a' b'
+  | _, _ => false
+  end.
+Definition block_eqb (a b : list string) : bool := set_eqb a b && (List.length a =? List.length b).
+Definition check10c (c : list string * list (list (list string))) : bool * bool * bool :=
+  let ok := forall2b (forall2b block_eqb) (axis_combinations (fst c)) (snd c) in
+  (ok, ok, true).
+Definition run10c (cs : list (list string * list (list (list string)))) := failing3 (map check10c cs).
